@@ -11,6 +11,7 @@ var Registry = map[string]Rule{
 	"C13": C13,
 	"C14": C14,
 	"C17": C17,
+	"C20": C20,
 }
 
 // Thorough runs the extra thorough-tier work of a property.
